@@ -22,7 +22,7 @@ import (
 
 func TestMain(m *testing.M) {
 	harness.Describe(
-		"dumps: (a) binaries = random/patterned/text buffers of 0..600 bytes (bit length optionally not a multiple of 8), sliced in bit or byte units at any start/length, rendered by Binary.Display (the code behind hd/hexdump and d of a binary); (b) decode trees = generated decoder programs (lib/treegen: nested buffers, sub-formats, gaps, errors, unaligned fields) and corpus samples, rendered from the root or from a random inner value by the decode value's Display (the code behind d/dd/dv); options drawn per rendering: line_bytes 1..64, addrbase and sizebase in {2,8,10,16,36}, display_bytes in {0,1,7,16,100,random}, verbose, colour, depth, array_truncate; (c) the same through the whole CLI in-process (fq -d FORMAT 'marker, (E|dv({...})), marker, ...' file with -o/-C options and the d/dd/dv/ddv/da/hd wrappers), many renderings per run. JSON: generated values (integers up to 2^200 and around the 32/53/63/64 bit boundaries, floats incl. NaN/Inf/-0/subnormals, strings with escapes, control characters and non-BMP code points, nested arrays/objects) printed by tojson, by the CLI (compact/indented, colour on/off, -V of a json decode value, --argjson) and exact integer arithmetic results. Non-trivial dump case: start not line-aligned, or more than one display line, or base != 16, or a nested buffer is shown; non-trivial JSON case: contains an integer outside int64 or a float needing exponent form or a string needing an escape. distinct = hash of source + options (+ expression list for the CLI).",
+		"dumps: (a) binaries = random/patterned/text buffers of 0..600 bytes (bit length optionally not a multiple of 8), sliced in bit or byte units at any start/length, rendered by Binary.Display (the code behind hd/hexdump and d of a binary); (b) decode trees = generated decoder programs (lib/treegen: nested buffers, sub-formats, gaps, errors, unaligned fields) and corpus samples, rendered from the root or from a random inner value by the decode value's Display (the code behind d/dd/dv); options drawn per rendering: line_bytes 1..64, addrbase and sizebase in {2,8,10,16,36}, display_bytes in {0,1,7,16,100,random}, verbose, colour, depth, array_truncate; (c) the same through the whole CLI in-process (fq -d FORMAT 'marker, (E|dv({...})), marker, ...' file with -o/-C options and the d/dd/dv/ddv/da/hd wrappers), many renderings per run. JSON: generated values (integers up to 2^200 and around the 32/53/63/64 bit boundaries, floats incl. NaN/Inf/-0/subnormals, strings with escapes, control characters and non-BMP code points, nested arrays/objects) printed by tojson, by the CLI (compact/indented, colour on/off, -V of a json decode value, --argjson) and exact integer arithmetic results. Non-trivial dump case: start not line-aligned, or more than one display line, or base != 16, or a nested buffer is shown; non-trivial JSON case: contains an integer outside int64 or a float needing exponent form or a string needing an escape. distinct = hash of source + options (+ expression list for the CLI). A quarter of the binaries sit over a concatenation of parts (bitio.MultiReader), so the dump writers receive their input in pieces of any length.",
 		"a value is 'truncated' exactly when fq prints the '*' row for it; truncation is only accepted when display_bytes > 0 and the value is larger than display_bytes",
 		"the 'until X (N)' marker is parsed back only when it is shorter than the hex column (a marker cut by the column is not a falsehood)",
 		"bytes of the final partial byte of a buffer whose bit length is not a multiple of 8 are compared after zero padding",
